@@ -286,6 +286,88 @@ pub fn run(t: &[String]) -> String {
             if pos != out.len() { return format!("ROWCOUNT {}", out.len()); }
             format!("S {}", parts.join(" / "))
         }
+        // eid_engine <k1> <readings1...> / <k2> <readings2...>
+        // End to end on one real shard: DEFINE, k1 STOREs (payload x = 0..), shutdown, a second real
+        // ShardManager on the same directories, k2 more STOREs, then QUERY through the real dispatcher and
+        // JSON renderer. Output: rows stored, rows the QUERY returned, and the sorted x values returned.
+        "eid_engine" => {
+            ensure_config();
+            use snel_db::command::dispatcher::dispatch_command;
+            use snel_db::command::parser::command::parse_command;
+            use snel_db::engine::schema::SchemaRegistry;
+            use snel_db::engine::shard::manager::ShardManager;
+            use snel_db::shared::response::json::JsonRenderer;
+            let mut parts = t[1..].split(|x| x == "/");
+            let l1 = parts.next().unwrap();
+            let l2 = parts.next().unwrap();
+            let ks = [l1[0].parse::<usize>().unwrap(), l2[0].parse::<usize>().unwrap()];
+            let scripts = [readings(&l1[1..]), readings(&l2[1..])];
+            let tmp = tempfile::tempdir().unwrap();
+            let base = tmp.path().join("cols");
+            let wal = tmp.path().join("wal");
+            let mut x = 0usize;
+            let mut last = String::new();
+            for life in 0..2 {
+                let rt = tokio::runtime::Builder::new_multi_thread().worker_threads(2).enable_all().build().unwrap();
+                let res: Result<String, String> = rt.block_on(async {
+                    let reg = SchemaRegistry::new_with_path(tmp.path().join("schemas.bin")).map_err(|e| format!("{e:?}"))?;
+                    let registry = Arc::new(tokio::sync::RwLock::new(reg));
+                    let mgr = ShardManager::new(1, base.clone(), wal.clone()).await;
+                    let run_cmd = |line: String| {
+                        let mgr = &mgr;
+                        let registry = &registry;
+                        async move {
+                            let cmd = parse_command(&line).map_err(|e| format!("parse {line}: {e:?}"))?;
+                            let mut out: Vec<u8> = Vec::new();
+                            dispatch_command(&cmd, &mut out, mgr, registry, None, Some("bypass"), &JsonRenderer)
+                                .await.map_err(|e| e.to_string())?;
+                            Ok::<String, String>(String::from_utf8_lossy(&out).to_string())
+                        }
+                    };
+                    if life == 0 { run_cmd(r#"DEFINE t FIELDS { "x": "int" }"#.to_string()).await?; }
+                    set_clock(scripts[life].clone());
+                    for _ in 0..ks[life] {
+                        run_cmd(format!(r#"STORE t FOR c PAYLOAD {{ "x": {x} }}"#)).await?;
+                        x += 1;
+                    }
+                    let q = run_cmd("QUERY t".to_string()).await?;
+                    let errs = mgr.shutdown_all().await;
+                    if !errs.is_empty() { return Err(format!("shutdown {errs:?}")); }
+                    for _ in 0..500 {
+                        if count_wal_lines(&wal.join("shard-0")) >= x { break; }
+                        tokio::time::sleep(std::time::Duration::from_millis(10)).await;
+                    }
+                    Ok(q)
+                });
+                drop(rt);
+                match res { Ok(q) => last = q, Err(e) => return format!("ENGINE_ERROR {}", e.replace(char::is_whitespace, "_")) }
+            }
+            if std::env::var("VHARN_DEBUG").is_ok() { eprintln!("{last}"); }
+            // rows of the streamed JSON answer: {"type":"schema","columns":[..]} then {"type":"batch","rows":[[..]]}
+            let (mut ix, mut iid) = (None, None);
+            let mut rows: Vec<(i64, u64)> = Vec::new();
+            for l in last.lines() {
+                let v: serde_json::Value = match serde_json::from_str(l) { Ok(v) => v, Err(_) => continue };
+                match v["type"].as_str() {
+                    Some("schema") => {
+                        for (i, c) in v["columns"].as_array().map(|a| a.as_slice()).unwrap_or(&[]).iter().enumerate() {
+                            match c["name"].as_str() { Some("x") => ix = Some(i), Some("event_id") => iid = Some(i), _ => {} }
+                        }
+                    }
+                    Some("batch") => {
+                        let (Some(ix), Some(iid)) = (ix, iid) else { return "ENGINE_ERROR no_schema".into() };
+                        for r in v["rows"].as_array().map(|a| a.as_slice()).unwrap_or(&[]) {
+                            rows.push((r[ix].as_i64().unwrap_or(-1), r[iid].as_u64().unwrap_or(0)));
+                        }
+                    }
+                    _ => {}
+                }
+            }
+            rows.sort();
+            let xs: Vec<String> = rows.iter().map(|r| r.0.to_string()).collect();
+            let ids: Vec<u64> = rows.iter().map(|r| r.1).collect();
+            format!("Q stored={} returned={} x={} ids={}", x, rows.len(), if xs.is_empty() { "-".to_string() } else { xs.join(",") }, join(&ids))
+        }
         // eid_raw <u64>: EventId round trip (from_raw / raw / is_zero)
         "eid_raw" => {
             let v: u64 = t[1].parse().unwrap();
